@@ -13,9 +13,10 @@ GOENV = dict(os.environ, GOFLAGS="-mod=mod", GOPROXY="off", GOSUMDB="off", GOTOO
              CGO_ENABLED=os.environ.get("CGO_ENABLED", "0"))
 
 TRUSTED_BASE = [
-    "Coq 8.16.1 kernel (coqc); vm_compute used in finite-sweep lemmas; no native_compute",
+    "Coq 8.16.1 kernel (coqc; coqchk -o in the thorough tier: Axioms <none>); vm_compute used in finite-sweep lemmas, tie lemmas and examples; no native_compute",
+    "libraries: Coq standard library (Lists, ZArith, NArith, Lia/Zify, Permutation, Sorted, SpecFloat), coq-record-update (RecordSet); none brings an axiom",
     "axioms: none declared; Print Assumptions of every property theorem is checked to be 'Closed under the global context'",
-    "tools/gentables (Go, go/ast): copies tables and constants from /repo's source into Gen/GenTables.v",
+    "tools/gentables (Go, go/ast): copies tables and constants from /repo's source into Gen/GenTables.v, lists assignments to package-level variables and through a Prog, and the synchronisation skeleton (channel / goroutine / mutex operations)",
     "extraction: Coq Extraction with ExtrOcamlBasic only (Extract Inductive for bool, option, unit, list, prod, sumbool, sumor; inlined andb/orb); no Extract Constant; OCaml 4.13 ocamlfind ocamlopt; coq/Extract/driver.ml (byte shuffling only)",
     "correspondence harness: harness/cmd/bclprobe (Go), vlib/*.py generators and comparators",
     "modelled, not verified: Go runtime and standard library (strconv, fmt, utf8, bufio, io, reflect, sort, channels, scheduler), github.com/mohae/uvarint (modelled in Model/Encoding.v)",
